@@ -115,11 +115,11 @@ func c04Body(x *mc.Exec) {
 		}
 		return r
 	}
-	t1 := mk(c04T, "1", map[string]any{"a": "x", "ab": Ptr(int(5)), "one": "u1", "ones": []string{"u2", "u1"}})
+	t1 := mk(c04T, "1", map[string]any{"a": "x", "ab": Ptr(int(5)), "one": "u1", "ones": []string{"u2", "u1", "u2"}})
 	t2 := mk(c04T, "2", map[string]any{"a": "", "one": "", "ones": []string{}})
 	u1 := mk(c04U, "u1", map[string]any{"b": true, "r": "1", "one": []string{"2"}})
 	related := map[string]map[string][]string{
-		"t/1": {"one": {"u1"}, "ones": {"u1", "u2"}}, "t/2": {"one": {}, "ones": {}},
+		"t/1": {"one": {"u1"}, "ones": {"u1", "u2", "u2"}}, "t/2": {"one": {}, "ones": {}},
 		"u/u1": {"r": {"1"}, "one": {"2"}},
 	}
 
@@ -168,11 +168,21 @@ func c04Body(x *mc.Exec) {
 
 	var out []byte
 	var err error
-	p := Try(func() { out, err = j.MarshalDocument(doc, url) })
-	x.R.Add("transitions", 1)
+	var first []byte
+	p := Try(func() {
+		first, err = j.MarshalDocument(doc, url)
+		if err == nil {
+			out, err = j.MarshalDocument(doc, url)
+		}
+	})
+	x.R.Add("transitions", 2)
 	x.Observe(string(out), p)
 	if p != "" {
 		x.Fail("C04:panic", "MarshalDocument panicked (%s): %s", desc, p)
+		return
+	}
+	if err == nil && string(first) != string(out) {
+		x.Fail("C04:second-marshal-differs", "%s: marshaling the same document twice gives different resource objects:\n  %.300s\n  %.300s", desc, first, out)
 		return
 	}
 	if err != nil {
